@@ -111,7 +111,8 @@ struct J {
     J &u(const std::string &k, unsigned long long v) { return raw(k, std::to_string(v)); }
     J &d(const std::string &k, double v) {
         char b[64];
-        if (std::isfinite(v)) snprintf(b, sizeof b, "%.17g", v); else snprintf(b, sizeof b, "null");
+        if (std::isfinite(v)) { snprintf(b, sizeof b, "%.17g", v); for (char *q = b; *q; q++) if (*q == ',') *q = '.'; /* a driver may run under a decimal-comma locale */ }
+        else snprintf(b, sizeof b, "null");
         return raw(k, b);
     }
     J &b(const std::string &k, bool v) { return raw(k, v ? "true" : "false"); }
